@@ -255,7 +255,12 @@ def m_int(ctx, interp, args, kwargs):
         dig = z3.InRe(v.term, z3.Plus(z3.Range("0", "9")))
         if ctx.branch(dig):
             return SInt(z3.StrToInt(v.term))
-        raise Unsupported("int() of a symbolic str that is not all ASCII digits")
+        from vf.lexsym import rx as _rx
+        udig = z3.InRe(v.term, z3.Plus(_rx.z3_set(_rx.category("digit"))))
+        if ctx.branch(udig):
+            ctx.note("stub: int() of non-ASCII decimal digits is the uninterpreted function py_int_parse")
+            return SInt(z3.Function("py_int_parse", z3.StringSort(), z3.IntSort())(v.term))
+        raise Unsupported("int() of a symbolic str that is not all decimal digits")
     raise Unsupported("int() of %s" % type(v).__name__)
 
 
@@ -815,8 +820,11 @@ def call_native(ctx, interp, fn, args, kwargs):
         raise Unsupported("hashlib.new(%r)" % (alg,))
     if isinstance(fn, type) and issubclass(fn, BaseException):
         if contains_sym(args) or contains_sym(kwargs):
-            inst = fn()
-            inst.args = tuple(args)
+            inst = fn.__new__(fn)
+            try:
+                inst.args = tuple(args)
+            except Exception:
+                pass
             return inst
         try:
             return fn(*args, **kwargs)
@@ -975,7 +983,10 @@ def str_method(ctx, interp, s, name, args, kwargs):
     if name == "__len__":
         return ops.py_len(ctx, s)
     if name == "count" and len(args) == 1 and isinstance(args[0], str) and isinstance(s, SStr):
-        raise Unsupported("str.count on symbolic str")
+        ctx.note("stub: str.count returns an arbitrary non-negative int")
+        n = z3.Int(ctx.fresh_name("count"))
+        ctx.assume(n >= 0)
+        return SInt(n)
     if name == "replace" and len(args) == 2:
         raise Unsupported("str.replace on symbolic str")
     raise Unsupported("str.%s with symbolic values" % name)
